@@ -133,7 +133,7 @@ def _run_deductive(c, case_id, case, cfg, out):
     timeout_ms = c.timeout_ms or cfg["timeout_ms"]
     deadline = time.time() + cfg["case_deadline_s"]
     records, stats, interp = explore(c.body, case, timeout_ms=timeout_ms,
-                                     max_paths=c.max_paths or cfg["max_paths"], deadline=deadline)
+                                     max_paths=c.max_paths or cfg["max_paths"], deadline=deadline, tier=_W["tier"])
     out["paths"] = len(records)
     out["solver_time"] = stats.solver_time
     out["queries"] = stats.queries
@@ -180,7 +180,7 @@ def _run_deductive(c, case_id, case, cfg, out):
     for m in merged.values():
         if m["status"] != "violated":
             continue
-        H, exc = replay_native(c.body, case, m.get("model") or {}, m.get("choices") or {})
+        H, exc = replay_native(c.body, case, m.get("model") or {}, m.get("choices") or {}, tier=_W["tier"])
         rep = {"confirmed": False, "observed": None}
         if m["check"] == "no_unexpected_exception":
             if isinstance(exc, BaseException):
@@ -210,6 +210,7 @@ def _run_deductive(c, case_id, case, cfg, out):
         from .engine import Harness, _reset_globals
 
         Hn = Harness("replay", rng=rng)
+        Hn.tier = _W["tier"]
         _reset_globals()
         excn = None
         try:
@@ -221,7 +222,7 @@ def _run_deductive(c, case_id, case, cfg, out):
 
         if isinstance(excn, PathInfeasible):
             continue
-        Hi, exci = run_concrete_interp(c.body, case, Hn.leaf_log, Hn.named_choices)
+        Hi, exci = run_concrete_interp(c.body, case, Hn.leaf_log, Hn.named_choices, tier=_W["tier"])
         from .sym import EngineError
 
         if isinstance(exci, EngineError) or exci == "infeasible":
@@ -547,7 +548,7 @@ def do_replay(prop, path):
         failed = bool(a and a[1])
         print(f"replay {rec['obligation']}: {'FAILS' if failed else 'holds'} natively; witness={a[2] if a else None} exc={exc!r}")
         return 1 if failed else 0
-    H, exc = replay_native(c.body, case[1], rec.get("inputs") or {}, rec.get("choices") or {})
+    H, exc = replay_native(c.body, case[1], rec.get("inputs") or {}, rec.get("choices") or {}, tier=rec.get("tier", "quick"))
     st = [s for (n, s, _i) in H.results if n == rec["check"]]
     failed = "violated" in st or (rec["check"] == "no_unexpected_exception" and isinstance(exc, BaseException))
     print(f"replay {rec['obligation']}: inputs={rec.get('inputs')} choices={rec.get('choices')}")
